@@ -404,7 +404,24 @@ class PendingFor(_PendingLoop[For]):
 
         self.nsp.loop_stack.append(self)
 
+    def _bind_target(self) -> Name:
+        """
+        Iterate over a temporary name and store it to the real target like an
+        assignment statement does, so that the target is bound in the enclosing
+        namespace (a comprehension variable is local to the comprehension).
+        """
+        tmp_name = Name(id=ol_name(OL_FOR_TMP))
+        assigner = PendingAssign(
+            Assign(targets=[self.node.target], value=tmp_name),
+            self.nsp,
+            self.nsp_global,
+        )
+        self.converted_body[0:0] = assigner.assign_auto(self.node.target, tmp_name)
+        return tmp_name
+
     def get_result(self) -> list[expr]:
+        for_loop_target = self._bind_target()
+
         # if no break/continue/return used
         # use the simplest list comprehension
         if self.interrupt_cnt == 0 and len(self.node.orelse) == 0:
@@ -413,7 +430,7 @@ class PendingFor(_PendingLoop[For]):
                     elt=self.nsp_global.expr_wraper(self.converted_body),
                     generators=[
                         comprehension(
-                            target=self.node.target,
+                            target=for_loop_target,
                             iter=expr_transf(self.nsp, self.node.iter),
                             ifs=[],
                             is_async=0,
@@ -484,7 +501,7 @@ class PendingFor(_PendingLoop[For]):
             elt=self.nsp_global.expr_wraper(self.converted_body),
             generators=[
                 comprehension(
-                    target=self.node.target,
+                    target=for_loop_target,
                     iter=for_loop_iter,
                     ifs=[],
                     is_async=0,
